@@ -434,6 +434,8 @@ func fileLevel(rng *vh.Rand, g genFile) (genFile, string) {
 func genC05(r *vh.Runner) {
 	genC05Func(r)
 	genC05Rewrites(r)
+	// simultaneous logins with one key: a single live grant admits one of them
+	concurrentConsume(r, "C05:one-live-grant-admits-several-simultaneous-logins", r.Pick(24, 480))
 	genC05E2E(r)
 }
 
